@@ -267,6 +267,13 @@ func c16Sequence(rc *RunCtx, i, s int, r *core.Rand) {
 				w.w.(interface{ Abort() error }).Abort()
 				ops = append(ops, fmt.Sprintf("abort-after-close-again(%s)", w.base))
 			}
+		case op == 9 && len(writers) > 0: // a stale Close on a writer that was aborted: whatever it returns, nothing changes
+			w := core.Pick(r, writers)
+			if w.state != "aborted" {
+				continue
+			}
+			err := w.w.Close()
+			ops = append(ops, fmt.Sprintf("close-after-abort(%s)=%v", w.base, err))
 		case op == 7 && len(writers) > 0: // abort after close is a no-op
 			w := core.Pick(r, writers)
 			if w.state != "closed" {
